@@ -510,7 +510,7 @@ func solveAll(dir string, reps []*FuncReport, filter func(*Obligation) bool, tim
 		go func(i int, j job) {
 			sem <- struct{}{}
 			defer func() { <-sem; done <- i }()
-			results[i] = solveOne(j, timeoutS, min(timeoutS, 4))
+			results[i] = solveOne(j, timeoutS, min(timeoutS, 6))
 		}(i, j)
 	}
 	for range jobs {
